@@ -83,6 +83,20 @@ const METAS: &[PropMeta] = &[
         assumptions: &["same crash model as C03", "known finding D6 is matched by its exact signature (gap caused by a chunk tail the worker had not yet written when the next chunk file already existed)"],
         min_distinct: 50,
     },
+    PropMeta {
+        id: "C07",
+        level: "exploration",
+        rule: "scheduled histories under tiny payload-cache limits (max_items in {0,1,2,3,5,default}, capacity in {0,8,64,300,default}) with truncations, purges, rotations and restarts; the worker is stepped through its write / per-file fdatasync / unlink (/ack) calls and at EVERY point where it is parked or idle - data still buffered, queued, written-unsynced, older-file-synced, boundary moved, acked, unlinked - read(0,MAX), dump_data().iter() and a random sub-range must return exactly the reference log's entries without error; at random steps 4 reader threads read everything while the worker runs freely and must all see the same. Half of the histories never re-append with a lower term (no exemption possible there). Non-trivial = run in which reads were served from disk (cache misses > 0); distinct = distinct (config, interleaving).",
+        assumptions: &["known finding D7 is matched only when the unreadable entry's log id is <= a log id removed by an earlier truncation and the error is 'Chunk not found ... open cache-miss read'"],
+        min_distinct: 20,
+    },
+    PropMeta {
+        id: "C15",
+        level: "exploration",
+        rule: "same scheduled histories and cache limits as C07; at every point where the worker is parked or idle the hook verif_cache_resident() (resident (log id, size) list + boundary under the cache lock) is compared with stat(): item count, byte size, boundary; right after every append (worker parked/idle since before the call, so the boundary in force is the one observed) an over-limit cache must hold no resident id <= boundary; at the end (worker idle) drain_cache_evictable() must leave no resident id <= boundary, also after a reopen. Non-trivial = run with >10 observations; distinct = distinct (config, interleaving).",
+        assumptions: &["hook H1 (feature verif-hooks) returns the cache map contents under its RwLock", "the limit clause is evaluated after appends only (the only writes that insert and evict)"],
+        min_distinct: 20,
+    },
 ];
 
 fn meta(prop: &str) -> Option<&'static PropMeta> {
@@ -96,6 +110,7 @@ fn run_shard(ctx: &mut Ctx) {
         "C04" => props::c04::run_shard(ctx),
         "C08" => props::c08::run_shard(ctx),
         "C03" | "C05" => props::crash::run_shard(ctx),
+        "C07" | "C15" => props::cache::run_shard(ctx),
         p => ctx.out.inconclusive.push(format!("no engine for {}", p)),
     }
 }
@@ -228,6 +243,8 @@ fn cmd_replay(args: &[String]) -> i32 {
         "c04" => props::c04::replay(rp),
         "c08" => props::c08::replay(rp),
         "crash" => props::crash::replay(rp),
+        "c07" => props::cache::replay(rp, true),
+        "c15" => props::cache::replay(rp, false),
         k => {
             eprintln!("unknown replay kind {}", k);
             return 2;
